@@ -88,6 +88,11 @@ def prog_features(prog):
             f.add("map%d" % len(n))
             if any(isinstance(v, str) for v in n[3:]):
                 f.add("let-bound-map")
+            if len(n) == 6:
+                lets = {x[1]: x[2] for x in prog[1:] if x[0] == "let"}
+                st = lets.get(n[5], n[5]) if isinstance(n[5], str) else n[5]
+                if isinstance(st, int) and st < 0:
+                    f.add("negative-step")
         if k == "subcircuit_block":
             f.add("sub")
             if isinstance(n[1], str) and n[1] != "":
